@@ -75,6 +75,8 @@ check("C02", "acknowledged writes survive a crash; recovery yields a history pre
        "<=2 steps, 3 keys", "<=3 steps", q={"budget_s": 300}, t={"budget_s": 900}),
     ob("VerifC10_DamagedFragmentedTail", "pkg/engine/storage", "log ending in an entry fragmented over three records (33 KB value), cut at every record boundary +-1, behind a header, inside a record: open succeeds, the earlier entry recovered, the large one only if complete and unaltered; then another fragmented entry and a small one written, close, reopen: both there unaltered, the cut entry not back with fabricated bytes",
        "4 record boundaries x 5 cut offsets"),
+    ob("VerifC03_CrashInCommit", "pkg/engine", "commit of 2-3 puts, the process dies at any file-system step of the commit (both crash models, torn in-flight write): after recovery all keys of the transaction or none; an acknowledged commit completely. Shapes: small values; values filling two log records completely (batch at the log buffer's capacity); a 40 KB transaction behind a 30 KB write still pending in the log buffer (sync modes none/batch: all-or-nothing only, survival of the acknowledged commit is not promised there)",
+       "2-3 keys; crash at every simfs operation inside begin..commit; torn lengths: every length <=24 bytes else 8 representatives; record-filling values with d in 0..1; pending-buffer shape with sync mode none or batch", q={"budget_s": 300}),
 ], [SIMFS, CLOCK, HASH, BLOOM, RAND, LOG, TIERA, "crash counterexamples are replayed natively by materialising the post-crash directory image and running the native recovery on it"],
    ["directory-entry durability", "media errors"])
 
